@@ -15,6 +15,8 @@
 #include "cmds/recv.c"
 
 #include <limits.h>
+#include <linux/sockios.h>
+#include <sys/ioctl.h>
 #include <sys/uio.h>
 
 #include "c16_common.h"
@@ -186,7 +188,8 @@ static void parse_case(const char *path)
 
 			c = &g_clients[g_nclients];
 			c->idx = g_nclients++;
-			sscanf(p + 7, "%s %s", a, b);
+			c->after = -1;
+			sscanf(p + 7, "%s %s after %d", a, b, &c->after);
 			c->localdir = strdup(a);
 			c->capfile = strdup(b);
 			c->ops = calloc(4096, sizeof(*c->ops));
@@ -245,6 +248,8 @@ static void parse_case(const char *path)
 				op->kind = OP_DBGFILES;
 			else if (!strcmp(kind, "end"))
 				op->kind = OP_END;
+			else if (!strcmp(kind, "abort"))
+				op->kind = OP_ABORT;
 			else {
 				fprintf(stderr, "bad op: %s\n", p);
 				exit(2);
@@ -258,14 +263,19 @@ static void parse_case(const char *path)
 static int server_main(int *sfd, int n)
 {
 	struct uftrace_opts opts;
-	int efd, i, live = n;
+	int efd, i, j, live = n;
 	int closed[MAXCLIENT] = { 0 };
+	int pending[MAXCLIENT] = { 0 };
 
 	memset(&opts, 0, sizeof(opts));
 	if (chdir(g_srvdir) < 0)
 		return 5;
 	efd = epoll_create1(EPOLL_CLOEXEC);
 	for (i = 0; i < n; i++) {
+		if (g_clients[i].after >= 0) {
+			pending[i] = 1; /* connection not accept()ed yet */
+			continue;
+		}
 		g_issock[sfd[i]] = 1;
 		epoll_add(efd, sfd[i], EPOLLIN);
 	}
@@ -279,12 +289,26 @@ static int server_main(int *sfd, int n)
 		if (len <= 0)
 			return 3; /* stuck */
 		for (i = 0; i < len; i++)
-			handle_client_sock(&ev[i], efd, &opts); /* the real thing */
+			handle_client_sock(&ev[i], efd, &opts); /* the real thing (EPOLLIN, EPOLLHUP, EPOLLERR) */
 		for (i = 0; i < n; i++) {
-			if (!closed[i] && fcntl(sfd[i], F_GETFD) < 0) {
-				closed[i] = 1;
-				g_issock[sfd[i]] = 0;
-				live--;
+			if (pending[i] || closed[i] || fcntl(sfd[i], F_GETFD) >= 0)
+				continue;
+			closed[i] = 1;
+			g_issock[sfd[i]] = 0;
+			live--;
+			/* what accept() does next: the waiting connection gets the lowest free
+			   descriptor, i.e. the number that was just closed */
+			for (j = 0; j < n; j++) {
+				if (!pending[j] || g_clients[j].after != i)
+					continue;
+				if (dup2(sfd[j], sfd[i]) < 0)
+					return 6;
+				close(sfd[j]);
+				sfd[j] = sfd[i];
+				pending[j] = 0;
+				g_issock[sfd[j]] = 1;
+				epoll_add(efd, sfd[j], EPOLLIN);
+				break;
 			}
 		}
 	}
@@ -293,7 +317,7 @@ static int server_main(int *sfd, int n)
 
 static int client_main(struct c16_client *c, int sock)
 {
-	int rc, has_end = 0, i;
+	int rc, has_end = 0, has_abort = 0, i;
 	char buf[256], path[PATH_MAX];
 	FILE *fp;
 
@@ -304,6 +328,8 @@ static int client_main(struct c16_client *c, int sock)
 	g_role = ROLE_CLIENT;
 	for (i = 0; i < c->nops; i++)
 		has_end |= c->ops[i].kind == OP_END;
+	for (i = 0; i < c->nops; i++)
+		has_abort |= c->ops[i].kind == OP_ABORT;
 
 	rc = c16_client(c, sock);
 
@@ -314,6 +340,17 @@ static int client_main(struct c16_client *c, int sock)
 	fclose(fp);
 	/* keep our end open until the server has consumed everything (an AF_UNIX peer close would
 	   raise EPOLLHUP at once, unlike TCP); without SEND_END only our sending direction ends */
+	if (has_abort) {
+		/* connection reset: wait until the server has READ everything we sent (SIOCOUTQ of an AF_UNIX
+		   socket = bytes not yet read by the peer), then drop the socket: the server sees EPOLLHUP */
+		int left = 1, spins = 0;
+
+		while (ioctl(sock, SIOCOUTQ, &left) == 0 && left > 0 && spins++ < 5000)
+			usleep(1000);
+		usleep(2000);
+		close(sock);
+		return rc;
+	}
 	if (!has_end)
 		shutdown(sock, SHUT_WR);
 	alarm(10);
